@@ -134,6 +134,21 @@ func foreignHello(r *rand.Rand, echKind string, key *gen.KeyMat, tls13 bool, big
 
 func genC05(env *core.Env, emit func(core.Case)) {
 	r := env.Rng
+	for rep := 0; rep < 6; rep++ {
+		// two pass-through connections set up one after the other, then read in turns
+		ops, p := interleavedSessions(r, false)
+		if ops == nil {
+			continue
+		}
+		w := ""
+		if p != "" {
+			w = "Read panicked: " + p
+		}
+		ops = append(ops, core.Op{Kind: 'X', Note: "two connections read in turns: no panic", Want: w})
+		emit(core.Case{Name: fmt.Sprintf("interleaved/%d", rep), Stream: "interleaved", Ops: ops, Key: "interleaved", Sig: fmt.Sprintf("interleaved/%d", rep),
+			Sample: map[string]any{"stream": "interleaved"}})
+		env.Count("interleaved")
+	}
 	key := gen.NewKey(r, 77, "public.example", gen.AllSuites)
 	other := gen.NewKey(r, 78, "public.example", gen.AllSuites)
 	n := env.Pick(2500, 60000)
